@@ -156,8 +156,37 @@ def Tag.sampleGroup : Tag → Bool
 abbrev Item := Str × Obs
 abbrev Pair := Str × Str
 
+/-- The containers for which metrique-core has a *forwarding* `impl InflectableEntry<NS>`
+(`inflectable_entry_impls.rs`: `&T`, `Option<T>`, `Box<T>`, `Arc<T>`, `Cow<'_, T>`;
+`close_value_impls.rs`: `ForceFlag<T, F>`, `WithDimensions<T, N>`). The list is regenerated by T-gen
+(`Generated.Naming.forwardingImpls`) and compared with `Wrapper.all` in `Props/C07.lean`. -/
+inductive Wrapper where
+  | ref | option | box | arc | cow | forceFlag | withDims
+  deriving Repr, DecidableEq
+
+def Wrapper.all : List Wrapper := [.ref, .option, .box, .arc, .cow, .forceFlag, .withDims]
+
+/-- the `for …` type of the impl, as T-gen prints it -/
+def Wrapper.rustType : Wrapper → String
+  | .ref => "&T"
+  | .option => "Option<T>"
+  | .box => "Box<T>"
+  | .arc => "Arc<T>"
+  | .cow => "Cow<'_, T>"
+  | .forceFlag => "ForceFlag<T, F>"
+  | .withDims => "WithDimensions<T, N>"
+
+/-- does the forwarding impl override `sample_group` (the two impls in `close_value_impls.rs` only
+define `write`, so the trait's default — no pairs — applies) -/
+def Wrapper.forwardsSampleGroup : Wrapper → Bool
+  | .forceFlag => false
+  | .withDims => false
+  | _ => true
+
 mutual
 inductive Def where
+  /-- the closed child seen through a forwarding impl (`Some` for `Option`) -/
+  | wrap (w : Wrapper) (d : Def)
   | struct (a : Attrs) (fs : Fields)
   /-- an entry enum, seen through the variant the instance is in -/
   | enum (a : Attrs) (tag : Option Tag) (vIdent : Str) (vName : Option Str) (tuple : Bool) (fs : Fields)
@@ -283,6 +312,13 @@ def Pfx.appendTo (infl : Infl) (p : Pfx) (ns : NS) : NS :=
 structure Cfg where
   infl : Infl
   limits : Limits
+  /-- the `NS` a forwarding impl hands to the wrapped entry. In the code every forwarding impl is
+  `impl<NS, T: InflectableEntry<NS>> InflectableEntry<NS> for W<T>` calling `T`'s methods, i.e. the
+  identity (`Cfg.forwards`); kept as a parameter so that the theorems *state* that requirement. -/
+  wrapNs : Wrapper → NS → NS := fun _ ns => ns
+
+/-- every forwarding impl passes the name style and prefix chain on unchanged -/
+def Cfg.forwards (c : Cfg) : Prop := ∀ w ns, c.wrapNs w ns = ns
 
 /-- `make_inflect_metric_name` + `const_str_value`. -/
 def fieldNameX (c : Cfg) (a : Attrs) (ns : NS) (ident : Str) (nameOv : Option Str) : Str :=
@@ -313,6 +349,7 @@ def tagWriteX (c : Cfg) (a : Attrs) (ns : NS) (tag : Option Tag) (vIdent : Str) 
 mutual
 /-- `InflectableEntry::<NS>::write` of the generated entry type. -/
 def expandDef (c : Cfg) (ns : NS) : Def → List Item
+  | .wrap w d => expandDef c (c.wrapNs w ns) d
   | .struct a fs => expandFields c a ns fs
   | .enum a tag vi vn tuple fs =>
     tagWriteX c a ns tag vi vn ++
@@ -356,6 +393,7 @@ mutual
 `collect_tuple_sample_group` call the child with `make_ns(rename_all)` only: the flatten prefix is
 *not* appended (known finding `naming:sample-group-misses-flatten-prefix`). -/
 def sgDef (c : Cfg) (ns : NS) : Def → List Pair
+  | .wrap w d => if w.forwardsSampleGroup then sgDef c (c.wrapNs w ns) d else []
   | .struct a fs => sgFields c a ns fs
   | .enum a tag vi vn tuple fs =>
     tagSgX c a ns tag vi vn ++ (if tuple then sgTupleFields c a ns fs else sgFields c a ns fs)
@@ -411,6 +449,7 @@ def specChain (infl : Infl) (style : Style) (chain : Str) : Option Pfx → Str
 
 mutual
 def specDef (infl : Infl) (inh : Style) (chain : Str) : Def → List Item
+  | .wrap _ d => specDef infl inh chain d
   | .struct a fs => specFields infl (effStyle inh a.renameAll) chain a fs
   | .enum a tag vi vn _ fs =>
     (match tag with
@@ -436,6 +475,7 @@ end
 mutual
 /-- sample-group pairs "use the same names": same walk, same chain. -/
 def specSgDef (infl : Infl) (inh : Style) (chain : Str) : Def → List Pair
+  | .wrap _ d => specSgDef infl inh chain d
   | .struct a fs => specSgFields infl (effStyle inh a.renameAll) chain a fs
   | .enum a tag vi vn _ fs =>
     (match tag with
@@ -469,6 +509,7 @@ def Field.tupleOk : Field → Bool
 mutual
 /-- the part of the macro's validation the naming rules depend on -/
 def wfDef : Def → Bool
+  | .wrap _ d => wfDef d
   | .struct _ fs => wfFields false fs
   | .enum _ _ _ _ tuple fs => wfFields tuple fs
 def wfFields (tuple : Bool) : Fields → Bool
@@ -482,8 +523,10 @@ end
 /-! ## Prefix erasure (what the code's `sample_group` actually computes) and its precondition -/
 
 mutual
-/-- the same definition with every flatten prefix removed -/
+/-- the same definition with every flatten prefix removed and everything below a wrapper that does
+not forward `sample_group` cut off -/
 def eraseDef : Def → Def
+  | .wrap w d => if w.forwardsSampleGroup then .wrap w (eraseDef d) else .struct ⟨.preserve, none⟩ .nil
   | .struct a fs => .struct a (eraseFields fs)
   | .enum a tag vi vn tuple fs => .enum a tag vi vn tuple (eraseFields fs)
 def eraseFields : Fields → Fields
@@ -497,6 +540,7 @@ end
 mutual
 /-- does the instance report any sample-group pair (of its own, not through `flatten_entry`)? -/
 def hasSgDef : Def → Bool
+  | .wrap _ d => hasSgDef d
   | .struct _ fs => hasSgFields fs
   | .enum _ tag _ _ _ fs => (match tag with | some t => t.sampleGroup | none => false) || hasSgFields fs
 def hasSgFields : Fields → Bool
@@ -509,9 +553,27 @@ def hasSgField : Field → Bool
 end
 
 mutual
+/-- reports no sample-group pair at all, not even through a `flatten_entry` -/
+def silentDef : Def → Bool
+  | .wrap _ d => silentDef d
+  | .struct _ fs => silentFields fs
+  | .enum _ tag _ _ _ fs => !(match tag with | some t => t.sampleGroup | none => false) && silentFields fs
+def silentFields : Fields → Bool
+  | .nil => true
+  | .cons f fs => silentField f && silentFields fs
+def silentField : Field → Bool
+  | .plain _ _ _ sg _ => !sg
+  | .flatten _ present child => !present || silentDef child
+  | .flattenEntry _ sg => sg.isEmpty
+  | _ => true
+end
+
+mutual
 /-- "no flatten prefix above a sample-group field": every prefixed flatten has a child that reports
-no sample-group pair of its own. -/
+no sample-group pair of its own; and nothing that reports a pair lies below a wrapper that does not
+forward `sample_group` (`ForceFlag`, `WithDimensions`). -/
 def sgPrefixFree : Def → Bool
+  | .wrap w d => (w.forwardsSampleGroup || silentDef d) && sgPrefixFree d
   | .struct _ fs => sgPrefixFreeFields fs
   | .enum _ _ _ _ _ fs => sgPrefixFreeFields fs
 def sgPrefixFreeFields : Fields → Bool
@@ -537,6 +599,7 @@ mutual
 each `flatten_entry`, transitively through present flattened children; nothing for ignored fields,
 timestamps and absent `Option`s -/
 def countDef : Def → Nat
+  | .wrap _ d => countDef d
   | .struct _ fs => countFields fs
   | .enum _ tag _ _ _ fs => (match tag with | some _ => 1 | none => 0) + countFields fs
 def countFields : Fields → Nat
